@@ -29,50 +29,35 @@ def showJoin : JoinResult → String
 
 def okOr (b : Bool) : String := if b then "ok" else "invalid"
 
+def showResp : Resp → String
+  | .invalid => "invalid"
+  | .spawned id => s!"id {id}"
+  | .polled log hot => s!"polled {showList log} hot={if hot then 1 else 0}"
+  | .join r => showJoin r
+  | .done b => okOr b
+  | .cancel r =>
+    match r with
+    | .ok => "ok some" | .cancelled => "ok none" | .panicked => "ok none" | .pending => "ok pending" | .invalid => "invalid"
+
+/-- text line → operation of the model (`tick` takes `max_interval` from the `new` line) -/
+def parseOp (n : Nat) : List String → Option Op
+  | ["spawn", sc] => (parseScript sc).map .spawn
+  | ["tick"] => some (.tick n)
+  | ["hpoll", id, w] => match id.toNat?, w.toNat? with
+    | some id, some w => some (.hpoll id w)
+    | _, _ => none
+  | ["hdrop", id] => id.toNat?.map .hdrop
+  | ["hdetach", id] => id.toNat?.map .hdetach
+  | ["hcancel", id] => id.toNat?.map .hcancel
+  | ["wake", id] => id.toNat?.map .wake
+  | ["wdrop", id] => id.toNat?.map .wdrop
+  | ["xdrop"] => some .xdrop
+  | _ => none
+
 def step (s : St) (line : String) : St × String :=
   if line.startsWith "#case" then (s, line.trimAscii.toString) else
   match words line with
   | ["new", n] => ({ e := Exec.init, n := n.toNat?.getD 61 }, "ok")
-  | ["spawn", sc] =>
-    if !s.e.alive then (s, "invalid") else
-    match parseScript sc with
-    | some script => let (e, id) := spawn s.e script; ({ s with e := e }, s!"id {id}")
-    | none => (s, "bad-op")
-  | ["tick"] =>
-    if !s.e.alive then (s, "invalid") else
-    let (e, log, hot) := tick s.e s.n
-    ({ s with e := e }, s!"polled {showList log} hot={if hot then 1 else 0}")
-  | ["hpoll", id, w] =>
-    match id.toNat?, w.toNat? with
-    | some id, some w => let (e, r) := handlePoll s.e id w; ({ s with e := e }, showJoin r)
-    | _, _ => (s, "bad-op")
-  | ["hdrop", id] =>
-    match id.toNat? with
-    | some id => let (e, b) := handleDrop s.e id; ({ s with e := e }, okOr b)
-    | none => (s, "bad-op")
-  | ["hdetach", id] =>
-    match id.toNat? with
-    | some id => let (e, b) := handleDetach s.e id; ({ s with e := e }, okOr b)
-    | none => (s, "bad-op")
-  | ["hcancel", id] =>
-    match id.toNat? with
-    | some id =>
-      let (e, b) := handleCancel s.e id
-      if !b then (s, "invalid") else
-      -- `cancel().await`: the handle is polled right away (noop waker 999)
-      let (e, r) := handlePoll e id 999
-      ({ s with e := e }, match r with
-        | .ok => "ok some" | .cancelled => "ok none" | .panicked => "ok none" | .pending => "ok pending" | .invalid => "invalid")
-    | none => (s, "bad-op")
-  | ["wake", id] =>
-    match id.toNat? with
-    | some id => let (e, b) := wakeLocal s.e id; ({ s with e := e }, okOr b)
-    | none => (s, "bad-op")
-  | ["wdrop", id] =>
-    match id.toNat? with
-    | some id => let (e, b) := wakerDrop s.e id; ({ s with e := e }, okOr b)
-    | none => (s, "bad-op")
-  | ["xdrop"] => if !s.e.alive then (s, "invalid") else ({ s with e := execDrop s.e }, "ok")
   | ["stat", id] =>
     match id.toNat? with
     | some id =>
@@ -81,7 +66,10 @@ def step (s : St) (line : String) : St × String :=
       | none => (s, "invalid")
     | none => (s, "bad-op")
   | ["woken"] => (s, s!"woken {showList s.e.woken}")
-  | _ => (s, "bad-op")
+  | ws =>
+    match parseOp s.n ws with
+    | some op => let r := applyR s.e op; ({ s with e := r.1 }, showResp r.2)
+    | none => (s, "bad-op")
 
 end C04
 
